@@ -18,3 +18,10 @@ import Ark.Props.C03
 #print axioms Ark.Props.C03.words_mask64_contains
 #print axioms Ark.Props.C03.words_mask64_containsAny
 #print axioms Ark.Props.C03.words_mask64_not
+#print axioms Ark.Props.C03.src_idx_addTable
+#print axioms Ark.Props.C03.src_idx_removeTarget
+#print axioms Ark.Props.C03.src_idx_getFreeTable
+#print axioms Ark.Props.C03.src_idx_hasRelations
+#print axioms Ark.Props.C03.src_idx_freeAllTables
+#print axioms Ark.Props.C03.src_idx_freeAllTables_storage
+#print axioms Ark.Props.C03.src_idx_markFree
